@@ -889,9 +889,16 @@ impl Parser {
                     match self.next_lexem() {
                         Some(Lexem::Comma) => {}
                         Some(Lexem::RawString(ref ordering_field)) => {
+                            // a number that starts an arithmetic expression (`2 * size`) is not a position
+                            let starts_expression =
+                                matches!(self.next_lexem(), Some(Lexem::ArithmeticOperator(_)));
+                            self.drop_lexem();
+
                             let actual_field = match ordering_field.parse::<usize>() {
-                                Ok(idx) if idx >= 1 && idx <= fields.len() => fields[idx - 1].clone(),
-                                Ok(idx) => {
+                                Ok(idx) if !starts_expression && idx >= 1 && idx <= fields.len() => {
+                                    fields[idx - 1].clone()
+                                }
+                                Ok(idx) if !starts_expression => {
                                     return Err(format!("ORDER BY position {} is not in the select list", idx));
                                 }
                                 _ => {
